@@ -1,0 +1,8 @@
+//go:build !verif
+
+// Package verifhook provides instrumentation points for the external verification harness.
+// In normal builds (without the "verif" build tag) Point is an empty, inlineable function.
+package verifhook
+
+// Point marks an instrumentation site. It does nothing unless built with -tags verif.
+func Point(site string, arg string) {}
